@@ -47,3 +47,13 @@ func VH_C14_DNN_GetDNN() {
 	a := &DNN{Iei: 0x25, Len: uint8(n), Buffer: vrt.Bytes("b", n)}
 	_ = a.GetDNN()
 }
+
+// long DNN contents: a label length octet at the boundary values of an octet with that many octets present
+func VH_C14_DNN_GetDNN_long() {
+	vrt.Unwind(40)
+	l0 := []int{63, 64, 127, 128, 253, 254}[vrt.Choose("lenClass", 0, 5)]
+	tail := vrt.Choose("tail", 0, 1)
+	buf := append([]byte{byte(l0)}, vrt.Bytes("body", l0+tail)...)
+	a := &DNN{Iei: 0x25, Len: uint8(len(buf)), Buffer: buf}
+	_ = a.GetDNN()
+}
